@@ -380,6 +380,93 @@ def handle (d : DState) (line : String) : DState × String :=
           | .error f => (d, showFault f)
         | _, _ => bad
       | _ => bad
+    | "ANALYSIS" =>
+      -- ANALYSIS F=8 top=2|- min=0 fps=hex,hex clusters=0.1.2;3.4
+      let top? : Option (Option Nat) :=
+        match kvD args "top" "-" with
+        | "-" => some none
+        | t => t.toNat?.map some
+      match (kv args "F").bind String.toNat?, top?, (kvD args "min" "0").toNat?,
+            (splitList ";" (kvD args "clusters" "-")).mapM (parseNats ".") with
+      | some F, some top, some m, some clusters =>
+        match parseRows F (kvD args "fps" "-") with
+        | some fps =>
+          let a := BB.Metrics.clusterAnalysis clusters fps top m
+          (d, s!"sizes={showNats "," a.sizes} isims={",".intercalate (a.isims.map showOptRat)} total={a.total} clusters={a.numClusters} singletons={a.singletons}")
+        | none => bad
+      | _, _, _, _ => bad
+    | "INDICES" =>
+      -- INDICES F=8 clusters=hex,hex|hex|hex,hex,hex
+      match (kv args "F").bind String.toNat? with
+      | none => bad
+      | some F =>
+        match (splitList "|" (kvD args "clusters" "-")).mapM (parseRows F) with
+        | some cl =>
+          (d, s!"chi={showRat (BB.Metrics.chi cl)} dbi={showRat (BB.Metrics.dbi cl)} dunn={showOptRat (BB.Metrics.dunn cl)}")
+        | none => bad
+    | "NUMABOVE" =>
+      match (kv args "k").bind String.toNat?,
+            (splitList ";" (kvD args "clusters" "-")).mapM (parseNats ".") with
+      | some k, some clusters => (d, s!"{BB.Metrics.numAbove clusters k}")
+      | _, _ => bad
+    | "FILESEQ" =>
+      -- FILESEQ F=8 files=01,02|03| idxs=0,2  (files separated by `|`, empty segment = empty file,
+      -- `files=-` = no file at all)  ->  ok <hexrow,...> | err:ValueError
+      match (kv args "F").bind String.toNat? with
+      | none => bad
+      | some F =>
+        let fstr := kvD args "files" "-"
+        let files? : Option (List (List Row)) :=
+          if fstr == "-" then some [] else (fstr.splitOn "|").mapM (fun f => parseRows F f)
+        match files?, parseNats "," (kvD args "idxs" "-") with
+        | some files, some idxs =>
+          match BB.Files.fileSeqIndex files idxs with
+          | .ok rows => (d, if rows.isEmpty then "ok" else "ok " ++ ",".intercalate (rows.map rowToHex))
+          | .error x => (d, s!"err:{x.name}")
+        | _, _ => bad
+    | "BATCHED" =>
+      -- BATCHED n=3 len=7  ->  3,3,1 0-3,3-6,6-7   (`- -` when there is no batch)
+      match (kv args "n").bind String.toNat?, (kv args "len").bind String.toNat? with
+      | some n, some len =>
+        let rb := BB.Files.rangeBatches n (List.range len)
+        if rb.isEmpty then (d, "- -")
+        else
+          (d, showNats "," (rb.map (fun r => r.2.length)) ++ " " ++
+            ",".intercalate (rb.map (fun r => s!"{r.1.1}-{r.1.2}")))
+      | _, _ => bad
+    | "SPLITMERGE" =>
+      -- SPLITMERGE n=25 per=2 digits=2  ->  x.00.npy,x.01.npy,... true
+      -- (rows are their indices; the flag: merging the parts in sorted-name order restores 0..n-1)
+      match (kv args "n").bind String.toNat?, (kv args "per").bind String.toNat?,
+            (kv args "digits").bind String.toNat? with
+      | some n, some per, some digits =>
+        let rows := List.range n
+        let parts := BB.Files.splitFile rows per digits "x"
+        let names := if parts.isEmpty then "-" else ",".intercalate (parts.map (·.1))
+        (d, s!"{names} {BB.Files.mergeFiles parts == rows}")
+      | _, _, _ => bad
+    | "PARTS" =>
+      -- PARTS per=2 digits=1 valid=01101 name=fps  ->  fps.0=1,fps.1=2,fps.2= invalid=0,3 single=1.2 merged=1.2
+      -- SMILES i is the string `i`, valid iff bit i is 1; its fingerprint is shown as `i`
+      match (kv args "per").bind String.toNat?, kv args "valid" with
+      | some per, some valid =>
+        let dstr := kvD args "digits" "-"
+        let digits? : Option (Option Nat) := if dstr == "-" then some none else dstr.toNat?.map some
+        match digits? with
+        | none => bad
+        | some digits =>
+          let bits := valid.toList.map (· == '1')
+          let smiles := (List.range bits.length).map toString
+          let fp : String → Option Row := fun s =>
+            match s.toNat? with
+            | some i => if bits.getD i false then some (List.replicate (i + 1) true) else none
+            | none => none
+          let showRows (rs : List Row) : String := showNats "." (rs.map (fun r => r.length - 1))
+          let parts := BB.Files.partFiles fp smiles per digits (kvD args "name" "fps")
+          let single := BB.Files.singleFile fp smiles per
+          let ps := if parts.isEmpty then "-" else ",".intercalate (parts.map (fun f => s!"{f.1}={showRows f.2}"))
+          (d, s!"{ps} invalid={showNats "," single.2} single={showRows single.1} merged={showRows (BB.Files.mergeFiles parts)}")
+      | _, _ => bad
     | "MINSAFE" =>
       match (kv args "n").bind String.toNat? with
       | some n => (d, match minSafe? n with | some w => w.name | none => "err:ValueError")
